@@ -37,7 +37,10 @@ fn errname(e: &NodeError) -> &'static str {
 }
 
 fn run<const K: usize>(case: u64, rng: &mut Rng, ev: &mut Ev) {
-    let len = if rng.big { 60 + rng.below(200) } else { 5 + rng.below(56) };
+    // 5 %: a tree that grows large (several hundred slab slots) and then shrinks to a few dozen nodes that
+    // keep their high indices - arena index far above len()
+    let grow_shrink = rng.chance(0.05) && !cfg!(miri); // (too slow under the Miri tier)
+    let len = if grow_shrink { 450 + rng.below(350) } else if rng.big { 60 + rng.below(200) } else { 5 + rng.below(56) };
     let mut t = Tree::<u32, K>::new();
     let root = t.add_root(7);
     let mut m = Model::new(K, root, 7);
@@ -77,10 +80,38 @@ fn run<const K: usize>(case: u64, rng: &mut Rng, ev: &mut Ev) {
                 live.iter().max().unwrap() + 1 + rng.below(5)
             }
         };
-        let op = rng.below(100);
+        let mut op = rng.below(100);
+        let mut forced: Option<(usize, usize)> = None;
+        if grow_shrink {
+            if step < len * 11 / 20 {
+                op = rng.below(40); // growth phase: insertions only
+            } else if step < len * 16 / 20 && live.len() > 40 {
+                // shrink phase: remove old (low-index) subtrees that do not contain the youngest node
+                let youngest = *live.iter().max().unwrap();
+                let mut anc: std::collections::BTreeSet<usize> = Default::default();
+                let mut cur = Some(youngest);
+                while let Some(c) = cur {
+                    anc.insert(c);
+                    cur = m.nodes[&c].parent;
+                }
+                let cands: Vec<usize> = live.iter().cloned().filter(|i| !anc.contains(i)).take(40).collect();
+                if let Some(v) = if cands.is_empty() { None } else { Some(*rng.pick(&cands)) } {
+                    if let Some((pp, ll)) = m.label_in_parent(v) {
+                        forced = Some((pp, ll));
+                        op = 45;
+                    }
+                }
+            }
+        }
         if op < 40 {
             // add_child_node
-            let p = pick_idx(rng, &dead);
+            let p = if grow_shrink && rng.chance(0.7) {
+                // prefer a parent with a free slot so that the tree really grows
+                let free: Vec<usize> = live.iter().cloned().filter(|i| m.nodes[i].children.iter().any(|c| c.is_none())).collect();
+                *rng.pick(&free)
+            } else {
+                pick_idx(rng, &dead)
+            };
             let l = rng.below(K);
             let v = next_val;
             next_val += 1;
@@ -128,8 +159,10 @@ fn run<const K: usize>(case: u64, rng: &mut Rng, ev: &mut Ev) {
             }
         } else if op < 60 {
             // try_remove_child / remove_child
-            let p = pick_idx(rng, &dead);
-            let l = rng.below(K);
+            let (p, l) = match forced {
+                Some(x) => x,
+                None => (pick_idx(rng, &dead), rng.below(K)),
+            };
             let expect_err = if !m.nodes.contains_key(&p) {
                 Some("InvalidIndex")
             } else if m.nodes[&p].children[l].is_none() {
@@ -204,6 +237,25 @@ fn run<const K: usize>(case: u64, rng: &mut Rng, ev: &mut Ev) {
             }
         } else if op < 86 {
             // merge_child_with_parent: only callable (without a documented panic) on live nodes with exactly one child
+            // one call in eight goes to a node with SEVERAL children: the precondition of the call is violated
+            // (the library asserts "exactly one child"); whatever it does - panic or Err - the tree must be
+            // unchanged, and it must not report success (no K-ary tree can keep all children of a merged node)
+            if rng.chance(0.125) {
+                let multi: Vec<usize> = live.iter().cloned().filter(|i| *i != m.root && m.nodes[i].children.iter().flatten().count() >= 2).collect();
+                if let Some(p) = if multi.is_empty() { None } else { Some(*rng.pick(&multi)) } {
+                    let labels: Vec<usize> = (0..K).filter(|l| m.nodes[&p].children[*l].is_some()).collect();
+                    let l = *rng.pick(&labels);
+                    hist.push(format!("merge_child_with_parent({}, {}) on a node with {} children", p, l, labels.len()));
+                    h.s("merge-multi");
+                    match lib(case, "Tree::merge_child_with_parent (several children)", || t.merge_child_with_parent(p, l).map(|n| n.value)) {
+                        Ok(Ok(v)) => fail!("c12:merge:ok-on-node-with-several-children", format!("step {}: returned Ok({}) for node {} which has {} children", step, v, p, labels.len())),
+                        Ok(Err(_)) => ev.inc("merge_on_multi_child_node_rejected_with_err"),
+                        Err(_) => ev.inc("merge_on_multi_child_node_rejected_with_panic"),
+                    }
+                    saw_err = true;
+                    // falls through to the invariant / model comparison below: nothing may have changed
+                }
+            }
             let cands: Vec<usize> = live
                 .iter()
                 .cloned()
@@ -370,6 +422,12 @@ fn run<const K: usize>(case: u64, rng: &mut Rng, ev: &mut Ev) {
     }
     if saw_reuse {
         ev.inc("histories_with_index_reuse");
+    }
+    if grow_shrink {
+        ev.inc("grow_then_shrink_histories");
+        if m.nodes.keys().max().map_or(false, |mx| *mx >= 64 * (m.nodes.len() / 64 + 1)) {
+            ev.inc("final_trees_with_max_index_far_above_len");
+        }
     }
     if saw_err {
         ev.inc("histories_with_err");
